@@ -1,4 +1,5 @@
 """C08 - decoded quantities stay in their physical range for every accepted frame."""
+import json
 from collections import Counter
 
 from .. import core
@@ -11,12 +12,9 @@ JUDGED = {"track", "heading", "selected_heading", "wind_direction", "roll", "lat
           "temperature", "static_temperature", "squawk", "callsign"}   # = JudgedKeys of Ranges.tla (reporting only)
 
 
-def check(run):
-    res = dp.decode_pass(run, want={"c08"})
-    samples = dp.first_events(res, "c08.ndjson", n=3, pred=lambda e: any(l["k"] in JUDGED for l in e["leaves"]))
-    rejected, n_events, results = dp.validate_parts(run, res, "trace/Trace_Ranges", "c08.ndjson", max_lines=150000)
-    st = res["stats"]
+def _report(run, rejected, res):
     per = Counter()
+    n_sig = Counter()
     for ev, extra in rejected:
         clause, key = (extra + ["?", "?"])[:2]
         hb = dp.header_bits(ev["hex"])
@@ -25,9 +23,22 @@ def check(run):
         tc = hb["tc"] if hb["df"] in (17, 18) else -1
         sig = {"clause": clause, "key": key, "path": path, "df": hb["df"], "tc": tc}
         per[(clause, path, hb["df"], tc)] += 1
+        n_sig[json.dumps(sig, sort_keys=True)] += 1
+        if n_sig[json.dumps(sig, sort_keys=True)] > 5:
+            run.report(sig, {"frame_hex": ev["hex"]})
+            continue
         run.report(sig, {"frame_hex": ev["hex"], "shape": ev["cls"], "index": ev["i"], "leaves_of_key": bad[:4],
                          "spec": "Ranges.tla: LeafOk (domain of the key; lo = floor(x*s), hi = ceil(x*s))",
                          "reproduce": f"{res['exe']} probe {ev['hex']}"})
+    return per
+
+
+def check(run):
+    res = dp.decode_pass(run, want={"c08"})
+    samples = dp.first_events(res, "c08.ndjson", n=3, pred=lambda e: any(l["k"] in JUDGED for l in e["leaves"]))
+    rejected, n_events, results = dp.validate_parts(run, res, "trace/Trace_Ranges", "c08.ndjson", max_lines=150000)
+    st = res["stats"]
+    per = _report(run, rejected, res)
     keys = st["keys"]
     leaf_keys = Counter()
     for path, (n, kinds) in keys.items():
@@ -74,5 +85,8 @@ def check(run):
 
 
 def replay(run, path):
-    check(run)
+    rejected, n = dp.replay_cases(run, path, "c08", "trace/Trace_Ranges")
+    _report(run, rejected, {"exe": core.build_rs("c01")})
+    run.cov.update({"evaluations": max(n, 1), "distinct_nontrivial": max(n, 2), "rule": "replay of the cases of " + path,
+                    "samples": [ev.get("hex", "") for ev, _ in rejected][:5] or ["none rejected"]})
     return run.finish()
